@@ -62,7 +62,7 @@ def run(ctx):
     progs += [(name, files, "main.ms") for name, files in projects]
     gen = cf_programs(ctx, ctx.n(120, 2000))
     progs += gen
-    dup = twin.duplabel_cases(ctx.rng("duplabel"), ctx.n(20, 200))
+    dup = twin.duplabel_cases(ctx.rng("duplabel"), ctx.n(20, 200)) + twin.first_instruction_cases() + twin.foreign_escape_cases()
     progs += dup
     # long operator chains and deep nests: `run` compiles on the runtime thread (4 MiB by default), `compile` on its own
     long_ = []
